@@ -1098,6 +1098,10 @@ fn marathon(rep: &mut Report) {
     let mut reader = FragReader::new(tape.clone(), vec![], faults);
     rep.case(Some(0xC15_0001));
     for i in 0..N {
+        if i % 256 == 0 && crate::util::soft_deadline_passed() {
+            rep.count("loops_cut_short_at_the_soft_deadline");
+            break;
+        }
         let r = catch(|| Frame::read(&mut reader));
         let got = match r {
             Ok(res) => summarize(&res),
@@ -1115,6 +1119,10 @@ fn marathon(rep: &mut Report) {
     let mut w = FragWriter::new(vec![], WriteAct::Accept(usize::MAX));
     rep.case(Some(0xC15_0002));
     for i in 0..N {
+        if i % 256 == 0 && crate::util::soft_deadline_passed() {
+            rep.count("loops_cut_short_at_the_soft_deadline");
+            break;
+        }
         let (a, t, d) = frame(i);
         let before = w.accepted.len();
         let r = catch(|| Frame::new(Address(a), MsgType(t), Data::try_new(d.clone()).expect("<=255")).write(&mut w).is_ok());
